@@ -133,6 +133,10 @@ func runC01(r *Run) {
 	// --- C01.lookup
 	r.checkLookup(P)
 
+	if r.Universal {
+		r.universalE11(P, pkgProcessor, pkgApplier, pkgParser, pkgIJWS, pkgHashing, pkgCommitment)
+	}
+
 	// --- C01.create.order (shared with C02): creates are first ordered chronologically, then published-first
 	r.checkChrono(P, "sortOperations@processor", r.fn(P, pkgProcessor, "sortOperations"))
 	r.checkCreateOrder(P)
@@ -308,7 +312,13 @@ func (r *Run) checkVerifyFlow(P string) {
 			rOK := b["r"] != nil && strings.Contains(b["r"].String(), "$signature[:") || strings.Contains(b["r"].String(), "$signature[:")
 			sOK := b["s"] != nil && strings.Contains(b["s"].String(), "$signature[")
 			pubOK := b["pub"] != nil && strings.Contains(b["pub"].String(), b["ijwk"].String())
-			hashOK := b["hash"] != nil && strings.Contains(b["hash"].String(), "Sum(")
+			// the digest is hash.Sum of the hasher — as written, or through a helper whose summary names its result
+			hashOK := false
+			for _, t := range equalTerms(r.succ(f, core.Ctx{}).Facts, b["hash"]) {
+				if strings.Contains(t.String(), "Sum(") {
+					hashOK = true
+				}
+			}
 			// the hash writer received msg
 			msgOK := core.HasFact(r.succ(f, core.Ctx{}).Facts, "ok(io.Writer.Write(_, $2))")
 			r.R.Check(rOK && sOK && pubOK && hashOK && msgOK, P+".verify.flow.ecdsa.operands",
